@@ -25,10 +25,10 @@ MANIFEST = {
     "text": "TLC model-checks the FluxSolver state machine (Seed/Iterate/Exit/GiveUp) with exact rationals (law, pressure identity, vacuum "
             "identity, homogeneity, refinement of the abstract loop; two wrong designs must be caught) and over the reference thermodynamics in "
             "IEEE arithmetic; every evaluation of real solver calls is recorded and validated by TLC as a behaviour of that machine with all "
-            "clauses of C02 as invariants.",
+            "clauses of C02 as invariants. tlapm proves for every input, arithmetic and permeate-pressure map that the specified machine returns only below the requested precision with the law at its stopping composition.",
     "note": "Inputs sampled over the C02 domain (seeded, incl. near-equilibrium permeate temperatures). Trusted: TLC, Java overrides, the "
             "wrapper/recorder, the public get_partial_pressures as oracle.",
-    "technique": "TLA+ state machine + TLC (rationals, IEEE) + TLC trace validation of wrapped solver iterations",
+    "technique": "TLA+ state machine + TLC (rationals, IEEE) + TLC trace validation of wrapped solver iterations + TLAPS proofs about the same specification module (tlapm)",
 }
 
 
